@@ -220,6 +220,7 @@ func genTyped() {
 	}
 	_ = token.ADD
 	genTypeAware(lf)
+	genRowLoops(lf)
 }
 
 // genTypeAware: which column settings are "type aware" (description rewrite of the PostgreSQL proxy) and which
